@@ -207,3 +207,15 @@ PROPS["C13"] = dict(
         dict(test="^TestC13_Timelines$", quick=dict(checks=3, timeout=900, shrink="1s"), thorough=dict(checks=6, shards=8, timeout=3000, shrink="1s")),
     ],
 )
+
+PROPS["C19"] = dict(
+    pkg="c19", level="fault_enumeration",
+    technique="rapid-generated fault time-lines (directory renamed away/restored around real 1 s boundaries and writes) with a conservation oracle over the files after restoration; generated static I/O faults per appender and call path",
+    level_text="Fault enumeration over generated placements: outages of the log directory (rename away / restore) are placed before, across and between real one-second boundaries while 1-4 writers write through the bare rolling appender or a Refresh-built logger; every call must return without panic, after restoration the files must hold every record exactly once, and with one writer a write after the first boundary following restoration must be in a file created at/after it; static faults (closed, never opened, /dev/full, missing directory, failing/short console stream) are driven through Write/Append and log calls under a 10 s watchdog.",
+    level_note="Fault placements are generated, not exhaustively enumerated (the space is continuous in time). Outage by rename(2); assumes the wall clock does not step. The retry clause is judged for single-writer time-lines only (with several writers the rotating goroutine's brief window is legitimate).",
+    rule="generated fault time-lines, 6 per case in parallel; static fault x path cases",
+    steps=[
+        dict(test="^TestC19_Outage$", quick=dict(checks=3, timeout=900, shrink="1s"), thorough=dict(checks=6, shards=8, timeout=3000, shrink="1s")),
+        dict(test="^TestC19_Static$", quick=dict(checks=300, timeout=900), thorough=dict(checks=3000, shards=4, timeout=3000)),
+    ],
+)
